@@ -19,7 +19,7 @@ func init() {
 	register(&Property{
 		ID:          "C11",
 		Technique:   "static analysis: registry-resolved command tables; argument-count abstract interpretation by exhaustive enumeration of len(cmd.Args) over the labelled CFGs of the leader-side check and the apply handler (with concrete unrolling of step loops); non-negativity dataflow from parsed client integers to slice bounds; typestate of values returned together with an error; ORDER rules on batch abort and recover",
-		Explanation: "Decides: (A1) for every registered write command, every argument count that the leader-side handler lets through to the propose call is safe for the apply handler of the same name and the module functions it hands the arguments to: no index or slice of cmd.Args can be out of range (decided for each count 0..31 and for large even/odd counts, loops over the arguments unrolled concretely), including ApplyRaftRequest's own cmd.Args[0]/[1]; (A2) every proposable command name has an apply handler; (A3) a handler error reaches the batch abort, and a value returned together with an error is never stored unchecked; (A4) the connection path recovers from panics; (A5) an integer parsed from a client argument on the apply path cannot reach a slice bound, index or allocation size while possibly negative. A5 also covers (i) size tests that add to the client integer before comparing (the sum wraps around for a huge value: found and fixed in SETRANGE) and (ii) stored values decoded with constant offsets: a small length analysis (requirement computed from the decoder, lower bound at each call from the dominating len() tests and re-slicings) for newHLLItemFromDBBytes. A2 also requires that every option look-ahead S[i+k] of an option parser in packages node and server (a function that dispatches on strings.ToLower(string(S[i]))) is guarded by i+k < len(S) on its path.",
+		Explanation: "Decides: (A1) for every registered write command, every argument count that the leader-side handler lets through to the propose call is safe for the apply handler of the same name and the module functions it hands the arguments to: no index or slice of cmd.Args can be out of range (decided for each count 0..31 and for large even/odd counts, loops over the arguments unrolled concretely), including ApplyRaftRequest's own cmd.Args[0]/[1]; (A2) every proposable command name has an apply handler; (A3) a handler error reaches the batch abort, and a value returned together with an error is never stored unchecked; (A4) the connection path recovers from panics; (A5) an integer parsed from a client argument on the apply path cannot reach a slice bound, index or allocation size while possibly negative. A5 also covers (i) size tests that add to the client integer before comparing (the sum wraps around for a huge value: found and fixed in SETRANGE) and (ii) stored values decoded with constant offsets: a small length analysis (requirement computed from the decoder, lower bound at each call from the dominating len() tests and re-slicings) for newHLLItemFromDBBytes. A2 also requires that every option look-ahead S[i+k] of an option parser in packages node and server (a function that dispatches on strings.ToLower(string(S[i]))) is guarded by i+k < len(S) on its path. (A6) every last-element index X[len(X)-k] in packages node and server is evaluated only where len(X) >= k follows from the path condition (the merge scans run partition handlers in goroutines without recover).",
 		NotDecided:  "upper-bound index panics that depend on relations between values, nil dereferences, panics inside engines and third-party parsers, arithmetic overflow, size limits, the effect on the next command beyond the batch-abort order, other read and merge commands (the option parsers of the scan and merged commands are covered by the look-ahead rule of A2 because their goroutines are not under the connection recover()).",
 		Assumptions: []string{"argument counts >= 32 behave like the representatives 40 (even) and 41 (odd)", "a branch whose condition does not depend on the argument count alone may go either way", "commands reach the apply handler with the argument vector the leader proposed (rebuildFirstKeyAndPropose rewrites only Args[1])"},
 		Run:         runC11,
